@@ -217,6 +217,10 @@ class Weaver:
                 self.do_const(arg, i + 1)
             elif cmd == "impl":
                 alias, header = arg.split(None, 1)
+                as_header = None
+                if " =as=> " in header:
+                    # R19: a trait impl is verified as an inherent impl (Verus forbids `requires` on trait-method impls)
+                    header, as_header = header.split(" =as=> ", 1)
                 srcf = self.src(alias)
                 found = srcf.find_impl(header)
                 if len(found) != 1:
@@ -225,13 +229,22 @@ class Weaver:
                 hdr_text = rl.text_of(srcf.toks, found[0].head, found[0].body_open)
                 self.ctx_type = _impl_self_type(found[0].name)
                 self.ctx_impl_is_trait = " as " in self.ctx_type
+                if as_header is not None:
+                    self.dropped.append("trait impl `%s` verified as inherent impl `%s`" % (found[0].name, rl.norm(as_header)))
+                    self.ctx_type = self.ctx_type.split(" as ")[0]
+                    self.ctx_impl_is_trait = False
+                    hdr_text = as_header.strip() + " {"
                 self.emit_src(hdr_text, alias, srcf.toks[found[0].head].line)
             elif cmd == "endimpl":
                 self.emit_spec("}", i + 1)
                 self.ctx_impl = None
                 self.ctx_type = ""
             elif cmd == "free":
-                self.ctx_alias, self.ctx_impl, self.ctx_type = arg.strip(), None, ""
+                fa = arg.split()
+                self.ctx_alias, self.ctx_impl, self.ctx_type = fa[0], None, ""
+                for x in fa[1:]:
+                    if x.startswith("mod="):
+                        self.ctx_type = x[4:]   # qualified name prefix of free functions emitted inside `mod <name> { .. }`
                 self.ctx_impl_is_trait = False
             elif cmd == "fn":
                 j = i + 1
@@ -326,6 +339,7 @@ class Weaver:
         name = parts[0]
         ret, tags, attrs, rw_expect, as_name, drop_mut_self = None, (), [], {}, None, False
         stub = False
+        subs = []
         for p in parts[1:]:
             if p.startswith("ret="):
                 ret = p[4:]
@@ -335,6 +349,9 @@ class Weaver:
                 attrs.append(p[5:])
             elif p == "stub":
                 stub = True
+            elif p.startswith("sub="):
+                a_, b_ = p[4:].split("=>", 1)
+                subs.append((a_, b_))
             elif p.startswith("rw="):
                 r, c = p[3:].split(":")
                 for r1 in r.split("+"):
@@ -378,7 +395,19 @@ class Weaver:
         # --- split the directive block
         contract, inserts, loops = [], [], {}
         cur = contract
+        expanded = []
         for (ln, raw) in block:
+            st_ = raw.strip()
+            if st_.startswith("//@ include "):
+                inc = os.path.join(os.path.dirname(self.spec_path), st_[len("//@ include "):].strip())
+                try:
+                    for k2, l2 in enumerate(open(inc, encoding="utf-8").read().rstrip("\n").split("\n")):
+                        expanded.append((ln, l2))
+                except OSError as e:
+                    raise AnchorLoss("spec include missing: %s" % e)
+            else:
+                expanded.append((ln, raw))
+        for (ln, raw) in expanded:
             s = raw.strip()
             if s.startswith("//@"):
                 d = s[3:].strip()
@@ -395,6 +424,8 @@ class Weaver:
 
         # --- signature
         sig = rl.text_of(toks, it.head, it.body_open - 1)
+        for (a_, b_) in subs:
+            sig = sig.replace(a_, b_)
         sig = self.fix_signature(sig, ret, name)
         for a in attrs:
             self.emit_spec("    " + a, lineno, qname)
@@ -408,6 +439,8 @@ class Weaver:
         body_first_line = toks[it.body_open].line
         body = rl.text_of(toks, it.body_open, it.last)
         body = strip_comments_keep_lines(body)
+        for (a_, b_) in subs:
+            body = body.replace(a_, b_)
         body = resolve_cfg_in_body(body, self.config)
         body, counts = apply_rewrites(body, declared={r1 for r in rw_expect for r1 in r.split('+')})
         info.rewrites = counts
